@@ -67,7 +67,17 @@ class Coupled:
         # a consistent initial velocity: one Poisson solve through a zero-dt-like step is not available
         # publicly, so start from zero velocity + the bump of vorticity (the first step recovers velocity)
 
-    def step(self):
+    def stream_at(self, j):
+        """Free stream of global step j: with schedule 'drop' the free stream falls to a quarter from step 3 on, so the
+        advective time-step limit jumps up in one step (inputs of a step may change abruptly; the run must not
+        remember how fast its time step was allowed to grow)."""
+        if self.free_stream is None:
+            return None
+        if self.c.get("schedule") == "drop" and j is not None and j >= 3:
+            return self.free_stream * 0.25
+        return self.free_stream
+
+    def step(self, j=None):
         from elastica.rod.data_structures import overload_operator_kinematic_numba
 
         sim, inter, b = self.sim, self.inter, self.body
@@ -78,7 +88,7 @@ class Coupled:
             inter.compute_flow_forces_and_torques()  # what FlowForces does inside the body stepper
             inter.time_step(dt=dt / sub)
         inter()
-        kw = {"free_stream_velocity": self.free_stream} if self.free_stream is not None else {}
+        kw = {"free_stream_velocity": self.stream_at(j)} if self.free_stream is not None else {}
         sim.time_step(dt=dt, **kw)
         return dt
 
@@ -216,7 +226,7 @@ class CoupledRod(Coupled):
         self.free_stream = simcfg.free_stream(c) if c["stream"] else None
         self.body_time = time
 
-    def step(self):
+    def step(self, j=None):
         sim, inter = self.sim, self.inter
         dt = float(min(sim.compute_stable_timestep(dt_prefac=0.5), 0.02))
         sub = 3
@@ -224,7 +234,7 @@ class CoupledRod(Coupled):
             self.body_time = float(self.stepper.step(self.env, self.body_time, dt / sub))
             inter.time_step(dt=dt / sub)
         inter()
-        kw = {"free_stream_velocity": self.free_stream} if self.free_stream is not None else {}
+        kw = {"free_stream_velocity": self.stream_at(j)} if self.free_stream is not None else {}
         sim.time_step(dt=dt, **kw)
         return dt
 
@@ -288,7 +298,7 @@ def _cmp(fails, tag, got, want, eps, ctx):
 
 
 def case_resume(cfg, K, poisons, seed):
-    c = simcfg.normalise({k: v for k, v in cfg.items() if k not in ("body", "io_kind")})
+    c = simcfg.normalise({k: v for k, v in cfg.items() if k not in ("body", "io_kind", "schedule")})
     eps = float(np.finfo(np.dtype(c["dtype"]).type).eps)
     d = _scratch()
     fails = []
@@ -301,8 +311,9 @@ def case_resume(cfg, K, poisons, seed):
         run.init_state(seed)
         traj = [run.public()]
         run.save(d, 0)
+        dts = []
         for k in range(1, K + 1):
-            run.step()
+            dts.append(run.step(k))
             traj.append(run.public())
             run.save(d, k)
             trans += 1
@@ -320,13 +331,13 @@ def case_resume(cfg, K, poisons, seed):
                 _cmp(fails, f"{tag}:at-load", res.public(), traj[k], 0.0, ctx)
                 res.poison(which)
                 for j in range(k + 1, K + 1):
-                    res.step()
+                    res.step(j)
                     trans += 1
                     _cmp(fails, f"{tag}:suffix", res.public(), traj[j], eps, dict(step=j, **ctx))
                 states += 1
     finally:
         shutil.rmtree(d, ignore_errors=True)
-    return CaseResult(fails=fails, states=states, transitions=trans, traces=states, outcome=f"{c['kind']}:{c['dtype']}:{states}", extra={"checkpoints": K + 1, "poison_variants": len(scratch_names)})
+    return CaseResult(fails=fails, states=states, transitions=trans, traces=states, outcome=f"{c['kind']}:{c['dtype']}:{states}", extra={"checkpoints": K + 1, "poison_variants": len(scratch_names), "dt_max_over_min": float(max(dts) / min(dts))})
 
 
 BODY_TIME_GAPS = ["+0.125", "+1ulp", "-1ulp", "+1e-9rel", "-1e-6rel", "+1e-4"]  # ways the body time can disagree with the flow time
@@ -442,6 +453,11 @@ def run(r) -> None:
     for kind in ("ns2d", "ns3d"):
         for dt_ in (("float64",) if quick else ("float64", "float32")):
             cases.append(dict(cfg={"kind": kind, "body": "rod", "dtype": dt_, "stream": True, "params": [1e-2, 5e-2, 1.7]}, K=K, poisons="each" if dt_ == "float64" else "all", seed=r.seed))
+    # inputs that change abruptly during the run: the free stream drops to a quarter at step 3 (the stable time step
+    # jumps up; nothing about earlier time steps may be remembered outside the checkpoint)
+    for kind in ("ns2d", "ns3d"):
+        cases.append(dict(cfg={"kind": kind, "dtype": "float64", "stream": True, "schedule": "drop", "params": [1e-2, 5e-3, 1.0]}, K=max(K, 5), poisons="all", seed=r.seed))
+    cases.append(dict(cfg={"kind": "ns2d", "body": "rod", "dtype": "float64", "stream": True, "schedule": "drop", "params": [1e-2, 5e-3, 1.0]}, K=max(K, 5), poisons="all", seed=r.seed))
     cases.sort(key=lambda c: (c["cfg"].get("body") != "rod", c["poisons"] != "each", c["cfg"]["kind"] != "ns3d"))
     r.run_cases("resume", "resume", cases)
     names = [0, 3, 10]
